@@ -1,3 +1,4 @@
+pub mod digraph;
 pub mod gc;
 pub mod hexlab;
 pub mod multi;
